@@ -2,13 +2,14 @@
 C16 - warnings are counted and drive the exit status.  Claimed for the COUNTING clause only:
   R16.1 System.msg counts every negative-threshold message, independently of verbosity, after the `once` de-duplication
   R16.2 the problem reporters named by the property report with the default (counting) threshold
-  R16.3 exit status computation in driver.main
+  R16.3 exit status computation in driver.main; reportErrors records the object before it reports
 and for the PROVENANCE part of the location clause:
   R16.4 a report names the file the object itself was read from (source_path set once, read from self), `<file>:<line>: <text>`;
         a type field keeps the line of its field
   R16.5 unit agreement: a docutils line (1-based) is converted where a ParseError (0-based) is built
   R16.7 the linker that reports a problem and the context object that locates it belong to the same object
   R16.6 the line of a field generated from a consolidated list item is the line where the item starts (its first node)
+  R16.8 an element the reST parser builds itself around parsed content (directive argument paragraph, consolidated-field item) carries a line
 Does not decide: any line arithmetic (offsets inside a docstring are runtime values).
 """
 from __future__ import annotations
@@ -147,7 +148,23 @@ def run(repo: Repo, chk: Check, thorough: bool = False) -> None:
     ok = bool(mk) and all(cfgm.dominates(cfgm.stmt_of(mk[0]), s, no_exc=True) for s in twos + threes)
     chk.ob('R16.3', 'driver.main :: status computed after the output was produced', ok, 'make(system) precedes the status computation' if ok else
            'the exit status is computed before rendering (rendering problems would not count)', mn.loc)
-    chk.require('R16.3', 5)
+    # status 2 depends on System.parse_errors: every place that REPORTS a parse error records the object first.  In the function that turns
+    # ParseErrors into reports, the recording dominates every report call (the only way past it is the early return for "no errors")
+    re_ = repo.func('pydoctor.epydoc2stan.reportErrors')
+    cfr = CFG(re_)
+    adds = [cfr.stmt_of(c) for c in calls_in(re_) if call_name(c) in ('add', 'append', 'update') and 'parse_errors' in norm(c.func)] + \
+        [n for n in re_.walk() if isinstance(n, (ast.Assign, ast.AugAssign)) and any('parse_errors' in norm(t) for t in (n.targets if isinstance(n, ast.Assign) else [n.target]))]
+    reps = [c for c in calls_in(re_) if call_name(c) in ('report', 'msg')]
+    if not reps:
+        raise AnalysisError('R16.3: reportErrors no longer reports (no report()/msg() call found)')
+    for c in reps:
+        okr = any(cfr.dominates(a, cfr.stmt_of(c), no_exc=True) for a in adds)
+        chk.ob('R16.3', f'{re_.qn} :: an object whose parse errors are reported is recorded in System.parse_errors', okr,
+               'parse_errors[section].add(...) on every path to the report' if okr else
+               'the report can be reached without the object having been recorded (the recording is missing or under a condition of its own, e.g. only for fatal '
+               'errors): "bad docstring: ..." is printed for an unclosed `*emphasis` or a mal-formatted field item, yet the run ends with status 0 instead of 2',
+               repo.loc(re_.mod, c))
+    chk.require('R16.3', 6)
 
     # ------------------------------------------------------------------ R16.4  (provenance part of the location clause)
     from ..owners import writers
@@ -359,3 +376,64 @@ def run(repo: Repo, chk: Check, thorough: bool = False) -> None:
            f'recorded in {sorted(attrs)} and read by Documentable.report' if recs and used else
            'the text and its line are stored on the object, the file is not: a problem in `f.__doc__ = """... L{bad_one} ..."""` written in pkg/docs.py is reported as '
            '`pkg/impl.py:5`, a file that has 5 lines and no such text', du.loc)
+
+
+    check_r16_8_built_nodes(repo, chk)
+
+
+def check_r16_8_built_nodes(repo: Repo, chk: Check) -> None:
+    """R16.8: a docutils element that the reST docstring parser builds itself around PARSED content carries a line."""
+    # get_lineno() locates a problem (an unresolvable reference) by walking up from its node to the first ancestor that has a `line`.  The elements docutils
+    # builds have one; an element pydoctor's own directives / field splitter build with `nodes.<element>(raw, text, *children)` has none unless it is given
+    # one - the walk then runs past it and the problem is reported at the line of some enclosing construct (the end of the directive, the start of the docstring).
+    # Instances: constructor calls whose children are parsed nodes (a starred sequence, or a name that is not itself a freshly built, located element)
+    rm = repo.mod('pydoctor.epydoc.markup.restructuredtext')
+    n_inst = 0
+    for f in repo.funcs.values():
+        if f.mod is not rm:
+            continue
+        ctor = [c for c in calls_in(f) if isinstance(c.func, ast.Attribute) and norm(c.func.value) == 'nodes' and c.func.attr[:1].islower() and c.func.attr != 'Text']
+        if not ctor:
+            continue
+        # names bound to freshly built elements, and the names whose `.line` (or source info) is set in this function
+        built_l = [(t.id, n.value) for n in f.walk() if isinstance(n, ast.Assign) and n.value in ctor for t in n.targets if isinstance(t, ast.Name)]
+        built = {k for k, _ in built_l}
+        located: Set[str] = set()
+        for n in f.walk():
+            if isinstance(n, ast.Assign):
+                for t in n.targets:
+                    for tt in (t.elts if isinstance(t, ast.Tuple) else [t]):
+                        if isinstance(tt, ast.Attribute) and tt.attr == 'line' and isinstance(tt.value, ast.Name):
+                            located.add(tt.value.id)
+            if isinstance(n, ast.Call) and call_name(n) in ('set_source_info', 'set_node_attributes') and n.args and isinstance(n.args[0], ast.Name):
+                if call_name(n) == 'set_source_info' or any(k.arg == 'lineno' for k in n.keywords):
+                    located.add(n.args[0].id)
+
+        def parsed_child(a: ast.expr) -> bool:
+            if isinstance(a, ast.Starred):
+                return True
+            if isinstance(a, ast.Call) and a in ctor:
+                return any(parsed_child(x) for x in a.args[2:])
+            if isinstance(a, ast.Name):
+                return not (a.id in built and a.id in located)
+            return not isinstance(a, ast.Constant)
+        ordn: Dict[str, int] = {}
+        for c in ctor:
+            kids = [a for a in c.args[2:] if parsed_child(a)]
+            if not kids:
+                continue
+            par = getattr(c, '_parent', None)
+            if isinstance(par, ast.Call) and par in ctor:
+                continue                      # judged with the enclosing construction
+            n_inst += 1
+            holder = next((k for k, v in built_l if v is c), None)
+            via_helper = isinstance(par, ast.Call) and call_name(par) == 'set_node_attributes' and any(k.arg == 'lineno' for k in par.keywords)
+            okl = via_helper or (holder is not None and holder in located)
+            ordn[c.func.attr] = ordn.get(c.func.attr, 0) + 1
+            chk.ob('R16.8', f'{f.qn} :: nodes.{c.func.attr} #{ordn[c.func.attr]} built around parsed content carries a line', okl,
+                   f'`{holder}.line` is set' if okl else
+                   f'the element is built around `{norm(kids[0])[:30]}` and never given a line: a problem inside it (an unresolvable `reference`) is located from the next '
+                   'ancestor that has one - the line after the end of a `.. deprecated::` block, or the first line of the docstring for a `:Parameters:` list item',
+                   repo.loc(f.mod, c))
+    if n_inst < 1:
+        raise AnalysisError(f'R16.8: {n_inst} element constructions around parsed content found in the reST parser (VersionChange.run confirmed)')
